@@ -18,7 +18,7 @@ use verif_harness::common::*;
 fn transition(input: &Value) -> Value {
     let mut fill = Fill(input["s"][0].as_u64().unwrap_or(0) as usize);
     let mut b = match input.get("p") {
-        None => match construct(&input["s"], &mut fill) {
+        None => match construct(&input["s"], input["f"].as_bool().unwrap_or(false), &mut fill) {
             Some(b) => b,
             None => return json!({"cannot_construct_source": input["s"]}),
         },
